@@ -1,5 +1,7 @@
 import TurVerif.Model.Sql
 import TurVerif.Model.Like
+import TurVerif.Lemmas.Like
+import TurVerif.Lemmas.LikeAscii
 /-!
 C14  WHERE filtering follows SQL three-valued logic.
 
@@ -281,6 +283,65 @@ the harness (known finding C14-like-percent-literal). -/
 theorem likeImpl_percent_counterexample :
     TurVerif.Like.likeImpl [120, 37, 120, 37] [95, 37] = some false ∧
     likeSpec ['_', '%'] ['x', '%', 'x', '%'] = true := by decide
+
+/-! ### the engine's LIKE matcher (M-code `likeImpl`) against the declarative definition -/
+
+/-- Termination of the engine's matcher loop: the iteration budget `fuelFor t p` of the model is
+never exhausted, for every text and every pattern (potential: `(|t|+|p|+1)·(|t| − starTi) +
+(|t| − ti) + (|p| − pi) + 1` strictly decreases in every iteration, `Lemmas/Like.lean`). -/
+theorem likeImpl_total (t p : List Nat) : TurVerif.Like.likeImpl t p ≠ none :=
+  TurVerif.Like.likeImpl_total' t p
+
+/-- On every text without a `%` byte (37) — and for EVERY pattern — the greedy
+single-backtrack matcher computes exactly the declarative LIKE (`likeSpecB` = `likeSpec` over
+bytes: `%` any sequence, `_` exactly one byte).  `_partial` because the unrestricted statement is
+false (`likeImpl_percent_counterexample`, `likeImpl_text_percent_counterexample`): the
+hypothesis on the text cannot be dropped. -/
+theorem likeImpl_eq_spec_partial (t p : List Nat) (ht : ∀ b ∈ t, b ≠ 37) :
+    TurVerif.Like.likeImpl t p = some (TurVerif.Like.likeSpecB p t) :=
+  TurVerif.Like.likeImpl_eq_specB t p ht
+
+/-- the same counterexample as `likeImpl_percent_counterexample`, against the byte-level
+definition: the `%`-free-text hypothesis of `likeImpl_eq_spec_partial` is necessary -/
+theorem likeImpl_text_percent_counterexample :
+    TurVerif.Like.likeImpl [120, 37, 120, 37] [95, 37] = some false ∧
+    TurVerif.Like.likeSpecB [95, 37] [120, 37, 120, 37] = true := by decide
+
+/-- For ASCII strings the byte-level definition on the UTF-8 bytes and the character-level
+definition `likeSpec` (the one `eval` uses for `LIKE`) coincide. -/
+theorem likeSpecB_eq_likeSpec_ascii (p s : String)
+    (hp : ∀ c ∈ p.toList, c.toNat < 128) (hs : ∀ c ∈ s.toList, c.toNat < 128) :
+    TurVerif.Like.likeSpecB (TurVerif.Like.bytesOf p) (TurVerif.Like.bytesOf s)
+      = likeSpec p.toList s.toList :=
+  TurVerif.Like.likeSpecB_bytesOf_ascii p s hp hs
+
+/-- code-point form of the same fact, for all characters (`Char.toNat` is injective) -/
+theorem likeSpecB_eq_likeSpec_codepoints (p s : List Char) :
+    TurVerif.Like.likeSpecB (p.map Char.toNat) (s.map Char.toNat) = likeSpec p s :=
+  TurVerif.Like.likeSpecB_map_toNat p s
+
+/-- Capstone: on ASCII text without `%` and any ASCII pattern, the engine's matcher run on the
+UTF-8 bytes returns SQL's LIKE as defined by the reference semantics. -/
+theorem likeImpl_eq_likeSpec_ascii_partial (s p : String)
+    (hs : ∀ c ∈ s.toList, c.toNat < 128) (hp : ∀ c ∈ p.toList, c.toNat < 128)
+    (hpct : '%' ∉ s.toList) :
+    TurVerif.Like.likeImpl (TurVerif.Like.bytesOf s) (TurVerif.Like.bytesOf p)
+      = some (likeSpec p.toList s.toList) := by
+  rw [← likeSpecB_eq_likeSpec_ascii p s hp hs]
+  apply likeImpl_eq_spec_partial
+  rw [TurVerif.Like.bytesOf_ascii s hs]
+  intro b hb
+  obtain ⟨c, hc, rfl⟩ := List.mem_map.mp hb
+  intro h
+  exact hpct ((TurVerif.Like.toNat_eq_37 c).mp h ▸ hc)
+
+/-- non-vacuity / sanity: hypotheses satisfiable, both answers occur, backtracking exercised
+('abcabd' LIKE '%ab_d%' needs the second occurrence of 'ab') -/
+example :
+    TurVerif.Like.likeImpl [97, 98, 99, 97, 98, 100] [37, 97, 98, 95, 100, 37] = some false ∧
+    TurVerif.Like.likeImpl [97, 98, 99, 97, 98, 120, 100] [37, 97, 98, 95, 100, 37] = some true ∧
+    TurVerif.Like.likeSpecB [37, 97, 98, 95, 100, 37] [97, 98, 99, 97, 98, 120, 100] = true := by
+  decide
 
 /-- non-vacuity: a concrete table on which the three TLP filters are all non-empty -/
 example :
